@@ -133,11 +133,8 @@ def main():
     rac.section("chains", "linear chains of 10..5000 vertices (depth independence)", "lengths 10,500,1500,5000")
     for ln in (10, 500, 1500, 5000):
         run_chain(rac, ln)
-    try:
-        from rac import c02_manager
-        c02_manager.run(rac)
-    except ImportError:
-        pass
+    from rac import c02_manager
+    c02_manager.run(rac)
     return rac.finish()
 
 
